@@ -71,6 +71,12 @@ def declares_none(t):
     return False
 
 
+def has_props_bound_on_class(t):
+    """minProperties / maxProperties on a class-typed position: the bound counts the keys of the *datum*, and serialization
+    completes the datum with defaults - outside the round-trip statement"""
+    return (t.kind == "optional" and getattr(t, "cons", None) and t.cons[0].endswith("props")) or any(has_props_bound_on_class(k) for k in t.kids)
+
+
 def has_unique(t):
     return (t.kind == "clist" and t.cons[0] == "unique") or any(has_unique(k) for k in t.kids)
 
@@ -106,7 +112,7 @@ def run(prop, seed, budget, ctx):
     for t in types:
         tp = eval(t.py, ns)
         # (uniqueItems is tested on the raw data: distinct data may have equal images, which are then not values of the type)
-        amb = ambiguous_union(t) or has_unique(t)
+        amb = ambiguous_union(t) or has_unique(t) or (prop == "C05" and has_props_bound_on_class(t))
         if amb: hist["excluded:ambiguous-union-or-uniqueItems"] += 1; continue
         for _ in range(8):
             d = g.valid(t)
@@ -174,7 +180,9 @@ def run(prop, seed, budget, ctx):
         k_ok = None
         if mo is not None and "error" not in mo and "ok" in mo.get("model", {}) and mo.get("ser") is not None:
             m = mo["ser"]
-            if not str(m.get("crash", "")).startswith("ModelScope"):
+            # (extra keys of a TypedDict alternative of a union under additional_properties: not in the model of serialization)
+            unmodelled = case["sopts"]["ap"] and "typeddict" in case["features"] and ({"union", "optional"} & set(case["features"]))
+            if not str(m.get("crash", "")).startswith("ModelScope") and not unmodelled:
                 if "ok" in m: m = {"ok": canon_out(t, m["ok"])}
                 kcmp += 1
                 k_ok = ({k: v for k, v in case["impl"].items() if k != "msg"} == m); case["model"] = m
